@@ -270,8 +270,18 @@ def judgeExtra2 (hNew hOld : HCtx) (op res : Array String) (dump : Option St) : 
           let cr := dab.x * dc.y - dc.x * dab.y
           let ncd := dc.x * dc.x + dc.y * dc.y
           boxOverlap c && decide (cr * cr * 2 ^ (if f32 then 24 else 60) ≤ nab * ncd)
+        -- … and of K15 as extended: an existing vertex (not an end point) lies within rounding
+        -- distance of the new constraint's segment without lying on it exactly (typically a vertex
+        -- that was placed "on" the segment in floating point): the rounded split vertices then
+        -- define a polyline that can pass on the other side of that vertex
+        let nearLine := (List.range s.nV).any fun i =>
+          let v := s.P i
+          let o := orient pa pb v
+          i != a && i != b && o != 0 && decide (o * o ≤ eps * eps * nab) &&
+            decide (0 ≤ dotFrom pa pb v) && decide (dotFrom pa pb v ≤ nab)
         let nv := (if nearVertex then " nearVertex=1" else " nearVertex=0") ++
-          (if nearParallel then " nearParallel=1" else " nearParallel=0")
+          (if nearParallel then " nearParallel=1" else " nearParallel=0") ++
+          (if nearLine then " nearLine=1" else " nearLine=0")
         let f1 := chk (oldVerticesKept s d) "C13" "split-changed-existing-vertex" (fun _ => "")
         let f2 := chk (newIdx.all fun i => ctor.contains (d.P i) && d.data.getD i 0 == 777000) "C13"
           "split-vertex-not-from-constructor" (fun _ => s!"new={newIdx.length} ctor={ctor.length}")
